@@ -260,7 +260,7 @@ class PathRun:
             self.events.append(("handle", ptr, cnt, pos, st))
 
 
-def run_paths(f, unroll=1):
+def run_paths(f, unroll=None):
     out = []
     for p in paths(f, unroll=unroll):
         r = PathRun(f, p).run()
